@@ -380,6 +380,22 @@ def step (st : St) (line : String) : St × String :=
       let bq' := normalize (bq.performBiasUpdate st.nuq (parseStep a))
       ({ st with bf := some bf', bq := some bq' }, dumpBox bf' ++ (if sameState bf' bq' then " #rat=ok" else " #rat=diff"))
     | _, _, _ => (st, "bad-op")
+  | "biassolve" :: rest =>
+    match parseInts rest, st.bf, st.bq with
+    | some [num, shift, maxit, stz], some bf, some bq =>
+      -- Float instance only: the exact (Rat) instance of a whole Rprop run is not computed (the step sizes 0.01·1.2^a·0.5^b make the
+      -- rationals explode); the harness marks the state as inexact from here on, the Rat state is left behind (#rat=diff)
+      let _ := bq
+      let normR : RpropSt Float → RpropSt Float := fun r =>
+        let a1 := mkArr bf.c r.bias; let a2 := mkArr bf.c r.stepsize; let a3 := mkArr bf.c r.prev; let a4 := mkArr bf.c r.step
+        { bias := arrFn a1 0.0, stepsize := arrFn a2 0.0, prev := arrFn a3 0.0, step := arrFn a4 0.0 }
+      let rf := biasSolve normalize normR bf st.nuf bf.c (stz != 0) (fun _ => (0.0 : Float)) (Scal.ofIntShift num shift.toNat) maxit.toNat 300 5000
+      if rf.outOfFuel then (st, "fuel-exhausted") else
+      let code := match rf.stop with | .running => 0 | .accuracy => 1 | .maxIter => 4 | .stuck => 99
+      let bs := ",".intercalate ((List.range bf.c).map fun c => fbits (rf.r.bias c))
+      ({ st with bf := some rf.s },
+       s!"bias=[{bs}] it={rf.iterations} stop={code} acc={fbits rf.s.checkKKT} " ++ dumpBox rf.s ++ " #rat=diff")
+    | _, _, _ => (st, "bad-op")
   | "xbiasupd" :: rest =>
     match parseInts rest, st.xf, st.xq with
     | some a, some xf, some xq =>
